@@ -1,4 +1,4 @@
-package main
+package c05
 
 // C05 — extends yields base-then-local override, order-independent, cycle-safe.
 //
